@@ -460,6 +460,43 @@ func runDirected1(d Directed, v *vt.V) {
 				return
 			}
 		}
+	case "first-resume-race":
+		// several goroutines open the same, not yet existing, upload id at once (ocimem starts such a
+		// session on demand) and write one byte each: every acknowledged byte belongs to the one session
+		mem := ocimem.New()
+		const writers = 4
+		for i := 0; i < d.Iters; i++ {
+			id := fmt.Sprintf("fresh-%d", i)
+			var wg sync.WaitGroup
+			var acked atomic.Int64
+			start := make(chan struct{})
+			for g := 0; g < writers; g++ {
+				wg.Add(1)
+				go func() {
+					defer wg.Done()
+					<-start
+					w, err := mem.PushBlobChunkedResume(ctx, "foo", id, -1, 0)
+					if err != nil {
+						return
+					}
+					if n, err := w.Write([]byte("x")); err == nil && n == 1 {
+						acked.Add(1)
+					}
+				}()
+			}
+			close(start)
+			wg.Wait()
+			w, err := mem.PushBlobChunkedResume(ctx, "foo", id, -1, 0)
+			if err != nil {
+				v.Failf("harness", "%v", err)
+				return
+			}
+			if w.Size() != acked.Load() {
+				v.Failf("acknowledged-write-lost", "%s, iteration %d: %d goroutines opened upload %q at once and %d one-byte writes were acknowledged, but the session holds %d bytes", d.Family, i, writers, id, acked.Load(), w.Size())
+				return
+			}
+			w.Cancel()
+		}
 	case "stale-write-vs-status", "good-write-vs-wrong-offset":
 		// each handle on an upload session checks the offset it was opened at: what another
 		// handle on the same session is opened at must not matter
@@ -550,7 +587,7 @@ func init() {
 	propDirected = &vt.Prop[Directed]{
 		ID:   "C08",
 		Name: "DirectedRaces",
-		Rule: "directed workload families aimed at the registry's two-step operations, each a loop of racing goroutines under -race: tag-flip (a tag moved back and forth between two manifests, the old one deleted each time, while 4 readers GetTag: never missing, never foreign bytes), commit-vs-write / resume-vs-write (one goroutine commits digest(X) while another writes to the same session: a successful commit stores exactly X with the right size, a failed one stores nothing), commit-vs-cancel / commit-vs-wrong-commit / commit-vs-write-commit (every commit that reports success leaves exactly its content retrievable under its digest; nothing is ever stored under the empty digest), stale-write-vs-status / good-write-vs-wrong-offset (a handle opened at a stale offset is refused, one opened at the right offset is accepted, whatever offsets other handles on the same session are opened at meanwhile); distinct = (family, iterations, size)",
+		Rule: "directed workload families aimed at the registry's two-step operations, each a loop of racing goroutines under -race: tag-flip (a tag moved back and forth between two manifests, the old one deleted each time, while 4 readers GetTag: never missing, never foreign bytes), commit-vs-write / resume-vs-write (one goroutine commits digest(X) while another writes to the same session: a successful commit stores exactly X with the right size, a failed one stores nothing), commit-vs-cancel / commit-vs-wrong-commit / commit-vs-write-commit (every commit that reports success leaves exactly its content retrievable under its digest; nothing is ever stored under the empty digest), stale-write-vs-status / good-write-vs-wrong-offset (a handle opened at a stale offset is refused, one opened at the right offset is accepted, whatever offsets other handles on the same session are opened at meanwhile), first-resume-race (goroutines opening the same fresh upload id at once share one session: no acknowledged write is lost); distinct = (family, iterations, size)",
 		Run:  runDirected,
 	}
 }
@@ -564,9 +601,9 @@ func TestPropDirected(t *testing.T) {
 	vt.Enumerate(t, propDirected, false, func(yield func(Directed) bool) {
 		k := 0
 		for rep := 0; rep < 2; rep++ {
-			for _, f := range []string{"tag-flip", "commit-vs-write", "commit-vs-cancel", "resume-vs-write", "commit-vs-wrong-commit", "commit-vs-write-commit", "stale-write-vs-status", "good-write-vs-wrong-offset"} {
+			for _, f := range []string{"tag-flip", "commit-vs-write", "commit-vs-cancel", "resume-vs-write", "commit-vs-wrong-commit", "commit-vs-write-commit", "stale-write-vs-status", "good-write-vs-wrong-offset", "first-resume-race"} {
 				for _, size := range []int{4, 4096, 1 << 20} {
-					if f == "tag-flip" && size != 4 {
+					if (f == "tag-flip" || f == "first-resume-race") && size != 4 {
 						continue
 					}
 					k++
@@ -577,7 +614,7 @@ func TestPropDirected(t *testing.T) {
 					if size == 1<<20 {
 						n = iters / 10
 					}
-					if f == "tag-flip" {
+					if f == "tag-flip" || f == "first-resume-race" {
 						n = iters * 20
 					}
 					if !yield(Directed{Family: f, Iters: n, Size: size}) {
